@@ -71,20 +71,37 @@ def session_calls(case, req_tids, dflt_tid):
         out.append((tid, called_as))
         for p in h.get("post", []):
             expand(p, None, out)
-    out = []
-    if case["requests"]:
-        for nm, tid in zip(case["requests"], req_tids):
-            expand(tid, nm, out)
-    elif dflt_tid is not None:
-        expand(dflt_tid, None, out)
-    if case["dedupe"]:
-        kept, seen = [], set()
-        for c in out:
-            if c[0] not in seen:
-                seen.add(c[0])
-                kept.append(c)
-        out = kept
-    return out
+    def one_execute(pairs):
+        out = []
+        if pairs:
+            for nm, tid in pairs:
+                expand(tid, nm, out)
+        elif dflt_tid is not None:
+            expand(dflt_tid, None, out)
+        if case["dedupe"]:
+            kept, seen = [], set()
+            for c in out:
+                if c[0] not in seen:
+                    seen.add(c[0])
+                    kept.append(c)
+            out = kept
+        return out
+    pairs = list(zip(case["requests"], req_tids))
+    k = case.get("split") or 0
+    if k:      # two execute() calls on one Executor
+        return one_execute(pairs[:k]) + one_execute(pairs[k:])
+    return one_execute(pairs)
+
+
+def _convertible_env(case):
+    """"environment values are convertible" also for the settings bodies create: no environment variable
+    names a NEW key containing an underscore, unless its value is "1" (fine for every leaf type)"""
+    made = set("INVOKE_" + "_".join(list(op[2]) + [op[3]]).upper()
+               for ops in case["bodies"].values() for op in ops
+               if op[0] in ("set", "setdefault", "pop") and isinstance(op[3], str) and "_" in op[3])
+    if not made:
+        return case
+    return dict(case, envs=[dict((k, x) for k, x in e.items() if k not in made or x == "1") for e in case["envs"]])
 
 
 def _dict_write(op):
@@ -96,7 +113,7 @@ def _dict_write(op):
 class C19(Prop):
     id = "C19"
     corr_module = "Corr.C19Corr"
-    preds = ("corr", "spec", "adj_fc19", "adj_fc06a", "adj_both")
+    preds = ("corr", "spec", "adj_fc19", "adj_fc06a", "adj_both", "adj_fc19c", "adj_fc19c_all")
     quick_n = 700
     thorough_n = 12000
     shard_size = 60
@@ -104,7 +121,7 @@ class C19(Prop):
             "levels are type-consistent; default tasks / default sub-collections) x Config(defaults, overrides) x "
             "pre/post hooks between tasks of different sub-collections x per-task bodies of 0-3 edits (leaf writes to "
             "existing and new settings, deletions of settings and of whole sections, pops, reads; item and attribute "
-            "syntax) x 0-3 requests by name/alias/shortcut (or none: default task) x dedupe on/off x a different "
+            "syntax; new settings whose variable name an existing setting has) x 0-3 requests by name/alias/shortcut (or none: default task), 20% of the multi-request sessions as two execute() calls on one Executor x dedupe on/off x a different "
             "environment for every executed call; observed: deep view on entry and on exit of every body; non-trivial = "
             ">=2 bodies executed, from >=2 different collections, and >=1 successful edit before the last body")
     trusted_base = [
@@ -117,11 +134,21 @@ class C19(Prop):
     assumptions = [
         "tasks take no arguments; each task is bound in exactly one collection (its namespace path is unique)",
         "bodies edit settings with leaf values only (dict-valued writes: C06, F-C06a) and navigate from the root",
-        "environment values are convertible and no two settings share a variable name (C16's subject)",
+        "environment values are convertible; no two settings of the LEVELS (defaults, overrides, collection "
+        "configurations) share a variable name (C16's subject: the load is documented to refuse) -- bodies do "
+        "create such pairs by writing new settings (db_host next to db.host), that is inside the statement",
         "no configuration files (system/user/project/runtime levels empty)",
-        "setting keys are lower-case identifiers without underscores",
+        "sessions of two execute() calls keep the default tasks.dedupe (every execute() re-reads it from the "
+        "configuration as edited so far; the dedupe switch of a case is fixed per session in the model)",
+        "setting keys of the levels are lower-case identifiers without underscores; keys written by bodies may "
+        "contain underscores",
     ]
-    not_modelled = ["Context objects other than their .config", "config files during a session", "Call subclasses"]
+    not_modelled = ["Context objects other than their .config",
+                    "configuration files during a session (system/user/project/runtime levels stay empty; their "
+                    "precedence is C03's subject)",
+                    "proxies of sections held in a variable across tasks (C06's held-proxy statements cover one Config; "
+                    "after the executor's reloads a held proxy is stale -- not specified here)",
+                    "Call subclasses"]
 
     # ---- generation --------------------------------------------------------
     def _leaf_paths(self, sch, pre=()):
@@ -135,7 +162,16 @@ class C19(Prop):
         fl = rng.choice(["item", "item", "attr"])
         leaves = list(self._leaf_paths(sch))
         secs = [p for p, sec in cc.schema_paths(sch) if sec]
-        newkey = lambda: rng.choice(["newkey", "zz", "fresh"])
+        def newkey():
+            return rng.choice(["newkey", "zz", "fresh", "new_key"])
+
+        deep = [p for p, _ in leaves if len(p) >= 2]
+        if deep and rng.random() < 0.06:
+            # a NEW setting whose environment-variable name an existing setting already has:
+            # db_host next to db.host (written in the section holding the rest of the path)
+            p = rng.choice(deep)
+            cut = rng.randrange(0, len(p) - 1)
+            return ["set", fl, list(p[:cut]), "_".join(p[cut:]), gt.jsonable(gt.leaf(rng, "is"))]
         r = rng.random()
         if r < 0.30 and leaves:
             p, kind = rng.choice(leaves)
@@ -229,6 +265,13 @@ class C19(Prop):
         if not dedupe:
             overrides = dict(overrides, tasks={"dedupe": False})
         envs = [cc.env_for(rng, sch, p_set=rng.choice([0.2, 0.5]), p_bad=0.0) for _ in range(rng.randint(1, 4))]
+        # "environment values are convertible" also for the settings bodies create: no environment
+        # variable names a NEW key containing an underscore (the directed clash cases set one, convertibly)
+        made = set("INVOKE_" + "_".join(list(op[2]) + [op[3]]).upper()
+                   for ops in bodies.values() for op in ops
+                   if op[0] in ("set", "setdefault", "pop") and isinstance(op[3], str) and "_" in op[3])
+        if made:
+            envs = [dict((k, x) for k, x in e.items() if k not in made) for e in envs]
         if any(_dict_write(op) for ops in bodies.values() for op in ops):
             # dict-valued writes are merged instead of replacing (F-C06a, known): which of the merged-in
             # settings then carry an environment override depends on load timing -- such sessions run
@@ -311,6 +354,34 @@ class C19(Prop):
             return dict(case, requests=reqs, envs=[env] if rng.random() < 0.6 else [env, env, {}], hooks={})
         return case
 
+    def _directed_clash(self, rng, case):
+        """the first requested task writes a new setting whose variable name an existing setting has
+        (db_host while db.host exists), another task follows; the environment may or may not set it"""
+        _, st = ns.build_and_dump(case["script"])
+        if "ok" not in st:
+            return case
+        d = st["ok"]
+        names = primary_names(d)
+        tids = sorted(names)
+        if len(tids) < 2:
+            return case
+        ta, tb = rng.sample(tids, 2)
+        paths = set()
+        for lvl in [case["init"]["defaults"], case["init"]["overrides"], d["config"]]:
+            paths.update(p for p, v in gt.leaf_paths(gt.unjson(lvl)) if len(p) >= 2)
+        if not paths:
+            return case
+        p = rng.choice(sorted(paths))
+        cut = rng.randrange(0, len(p) - 1)
+        w = ["set", rng.choice(["item", "attr"]), list(p[:cut]), "_".join(p[cut:]), rng.choice([1, "x", True])]
+        bodies = dict(case["bodies"])
+        bodies[str(ta)] = self._fix_ops([w] + (bodies.get(str(ta), []) if rng.random() < 0.3 else []))
+        var = "INVOKE_" + "_".join(p).upper()
+        envs = [dict((k, x) for k, x in e.items() if k != var) for e in case["envs"]]
+        if rng.random() < 0.2:
+            envs = [dict(e, **{var: "1"}) for e in envs]        # ... and the variable IS set: C16's refusal
+        return dict(case, bodies=bodies, requests=[names[ta], names[tb]], envs=envs, hooks={})
+
     def generate(self, rng, tier, n):
         for _ in range(n):
             case = self._gen(rng)
@@ -319,6 +390,14 @@ class C19(Prop):
                 case = self._directed(rng, case)
             elif r < 0.4:
                 case = self._directed_env(rng, case)
+            elif r < 0.47:
+                case = self._directed_clash(rng, case)
+            case = _convertible_env(case)
+            if any(_dict_write(op) for ops in case["bodies"].values() for op in ops) and case["envs"] != [{}]:
+                case = dict(case, envs=[{}])      # (see _gen: dict-valued writes run without environment overrides)
+            if len(case["requests"]) >= 2 and case["dedupe"] and rng.random() < 0.25:
+                # the requests handed to ONE Executor in two execute() calls: the session goes on
+                case = dict(case, split=rng.randint(1, len(case["requests"]) - 1))
             yield case
 
     def enumerate_small(self, tier):
@@ -421,7 +500,13 @@ class C19(Prop):
                     pass
             obs["req_names"] = names
             try:
-                Executor(coll, config=cfg).execute(*reqs)
+                ex = Executor(coll, config=cfg)
+                k = case.get("split") or 0
+                if k:
+                    ex.execute(*reqs[:k])
+                    ex.execute(*reqs[k:])
+                else:
+                    ex.execute(*reqs)
             except _Abort as e:
                 escaped = e.cls
             except RecursionError:
@@ -448,7 +533,7 @@ class C19(Prop):
         st = ct.result(obs["state"], ns.state)
         if obs.get("req_tids") is None:
             # build error or unusable request: compare the build only
-            return "(mk %s %s %s [] None %s %s %s (Ok ([], None)))" % (
+            return "(mk %s %s %s [] None %s %s %s (Ok ([], None)) 0)" % (
                 ns.sub(case["script"]), init, bodies, ct.b(case["dedupe"]), envs, st)
         reqs = ct.lst([ct.pair(ct.s(nm), self._scall(case, tid))
                        for nm, tid in zip(obs.get("req_names") or case["requests"], obs["req_tids"])])
@@ -461,8 +546,9 @@ class C19(Prop):
             o = "(Ok (%s, %s))" % (recs, ct.opt(ct.err(esc) if esc is not None else None))
         else:
             o = "(Err %s)" % ct.err(obs.get("err", "Exception"))
-        return "(mk %s %s %s %s %s %s %s %s %s)" % (
-            ns.sub(case["script"]), init, bodies, reqs, dflt, ct.b(case["dedupe"]), envs, st, o)
+        return "(mk %s %s %s %s %s %s %s %s %s %s)" % (
+            ns.sub(case["script"]), init, bodies, reqs, dflt, ct.b(case["dedupe"]), envs, st, o,
+            ct.n(case.get("split") or 0))
 
     # ---- classification ----------------------------------------------------------
     def _calls(self, case, obs):
@@ -522,6 +608,17 @@ class C19(Prop):
                 if len(path) > 1 and any(cfg for cfg in path[1:]):
                     unnamed = True
         v = verdict or {}
+        if obs["ok"]["escaped"] == "AmbiguousEnvVar":
+            # F-C19c: that error escaped at a reload, the model agrees (corr), every body that ran is as
+            # specified and two settings of the last view / the tree's configurations share a variable
+            # name (judged in Coq: adj_fc19c); with another finding's mechanism present, its lenient form
+            if not v.get("corr"):
+                return None
+            if v.get("adj_fc19c"):
+                return "F-C19c"
+            if (unnamed or dictwrite) and v.get("adj_fc19c_all"):
+                return "F-C19c"
+            return None
         if unnamed and v.get("adj_fc19"):
             return "F-C19"
         if dictwrite and v.get("adj_fc06a"):
